@@ -128,23 +128,40 @@ namespace fam_lockhash {
     inline int key_of( int k ) { return k; }
     inline int tag_of( Item const& i ) { return i.tag; }
 
+    // LOCKHASH_FUNCTOR_POINTS (harness lockhash_wide): every call of a key predicate or hash functor is a scheduling
+    // point. The probe sets and buckets of these containers are plain memory that is read and written inside critical
+    // sections only; the predicates are called from inside those sections (search of a probe set, relocation, resize),
+    // so a thread can be pre-empted between two element visits and a modification made without the cell lock
+    // (lock-discipline defect) becomes observable as a lost/duplicated element or as a sanitizer report.
+#ifdef LOCKHASH_FUNCTOR_POINTS
+#   define LOCKHASH_POINT() cdsverif::point()
+#else
+#   define LOCKHASH_POINT() (void) 0
+#endif
     struct HLess {
         template <typename A, typename B>
-        bool operator()( A const& a, B const& b ) const { return key_of( a ) < key_of( b ); }
+        bool operator()( A const& a, B const& b ) const { LOCKHASH_POINT(); return key_of( a ) < key_of( b ); }
     };
     struct HCmp {
         template <typename A, typename B>
-        int operator()( A const& a, B const& b ) const { return key_of( a ) < key_of( b ) ? -1 : key_of( a ) > key_of( b ) ? 1 : 0; }
+        int operator()( A const& a, B const& b ) const { LOCKHASH_POINT(); return key_of( a ) < key_of( b ) ? -1 : key_of( a ) > key_of( b ) ? 1 : 0; }
     };
     struct HEq {
         template <typename A, typename B>
-        bool operator()( A const& a, B const& b ) const { return key_of( a ) == key_of( b ); }
+        bool operator()( A const& a, B const& b ) const { LOCKHASH_POINT(); return key_of( a ) == key_of( b ); }
     };
     template <int I>
     struct LhHash {
-        size_t operator()( int k ) const { return params().h[I].eval( k ); }
-        size_t operator()( Item const& i ) const { return params().h[I].eval( i.key ); }
+        size_t operator()( int k ) const { LOCKHASH_POINT(); return params().h[I].eval( k ); }
+        size_t operator()( Item const& i ) const { LOCKHASH_POINT(); return params().h[I].eval( i.key ); }
     };
+#ifdef LOCKHASH_FUNCTOR_POINTS
+    typedef HLess MapLess;
+    typedef HEq MapEq;
+#else
+    typedef std::less<int> MapLess;
+    typedef std::equal_to<int> MapEq;
+#endif
 
     // mapped value of the map flavours; the default constructor takes the tag the calling thread announced
     // (insert(key) default-constructs the mapped value inside the container)
@@ -700,6 +717,8 @@ namespace fam_lockhash {
                     note_class( "cuckoo_resize_calls", st.m_nResizeCallCount.get());
                 if ( st.m_nRelocateCallCount.get())
                     note_class( "cuckoo_relocate_calls", st.m_nRelocateCallCount.get());
+                if ( st.m_nRelocateAboveThresholdCount.get())
+                    note_class( "cuckoo_relocate_second_round", st.m_nRelocateAboveThresholdCount.get());
                 if ( st.m_nFailedRelocateCount.get())
                     note_class( "cuckoo_relocate_all_full", st.m_nFailedRelocateCount.get());
                 if ( st.m_nResizeRelocateCall.get())
@@ -747,19 +766,19 @@ namespace fam_lockhash {
     // ---- container::CuckooMap traits -----------------------------------------------------
     struct cum_list_less_refinable : cc::cuckoo::traits {
         typedef LhTuple hash;
-        typedef std::less<int> less;
+        typedef MapLess less;
         typedef cc::cuckoo::refinable<> mutex_policy;
         typedef cc::cuckoo::stat stat;
     };
     struct cum_vec2_eq_striping_sh : cc::cuckoo::traits {
         typedef LhTuple hash;
-        typedef std::equal_to<int> equal_to;
+        typedef MapEq equal_to;
         typedef cc::cuckoo::vector<2> probeset_type;
         static bool const store_hash = true;
     };
     struct cum_list_eq_striping : cc::cuckoo::traits {
         typedef LhTuple hash;
-        typedef std::equal_to<int> equal_to;
+        typedef MapEq equal_to;
         typedef cc::cuckoo::stat stat;
     };
     struct cum_vec4_cmp_refinable : cc::cuckoo::traits {
